@@ -14,7 +14,7 @@ META = {
                    "observation of the implementation is also checked against WellFormed directly."),
     "level_note": ("Trusted: Lean kernel; keymap translator; the hand-written model is tied by differential runs only (bounded by the "
                    "generator). UTF-8 boundary clause: proved for every composition under ASCII input and character-starting candidate texts (C02.preedit_utf8_boundaries), and monitored on the implementation. Processors outside the model "
-                   "(ascii_composer, recognizer, key_binder, punctuator, chord_composer) and AutoSelectPreviousMatch are covered only "
+                   "(ascii_composer, recognizer, key_binder, punctuator, chord_composer) are covered only "
                    "by the context-layer lemmas plus the WellFormed monitor on a stock-component schema (luna_pinyin's component list over "
                    "tiny dictionaries; both tiers, no model behind those runs)."),
     "design_ref": "DESIGN.md §2 M-session, §3 C02",
